@@ -14,7 +14,7 @@ LEVEL_TEXT = ("Kernel (frames): the only location outside the environment that i
 EXPLANATION = LEVEL_TEXT
 NOT_DEDUCTIVE = ["reinitialisation of every field by reset and the absence of ambient nondeterminism (DESIGN section 7 C10 iii/iv): the generic "
                  "frame analysis was not built; bounded shell only", "bit identity of floating-point results (A1): shell only"]
-EXTRA_ASSUMPTIONS = ["ASSUMED contracts: TradingEnv._process_*_events, IState.__call__"]
+EXTRA_ASSUMPTIONS = ["ASSUMED contracts: IState.__call__, Transmitter._next"]
 
 import ast
 from pyvc import front, lemma
